@@ -25,25 +25,27 @@ def run(pid, tier, seed):
         for fault in ol.SCRIPTS:
             if fault == "invalid" or (cfg.startswith("tor_") and fault == "config"):
                 continue
-            traces.append(ol.replay(cfg, fault))
+            for noise in ("", "up", "fail"):
+                traces.append(ol.replay(cfg, fault, noise))
     for cfg in ol.INVALID:
         traces.append(ol.replay(cfg, "invalid"))
     rep.cov["evaluations"] = len(traces)
-    rep.cov["distinct_nontrivial"] = len(set((t["cfg"], t["fault"]) for t in traces))
+    rep.cov["distinct_nontrivial"] = len(set((t["cfg"], t["fault"], t["noise"]) for t in traces))
     rep.cov["exhaustive"] = True
     rep.cov["rule"] = ("every endpoint configuration x every fault (none / config / bind / reject / all uploads failed / disconnect during "
-                       "create / disconnect during wait) plus the invalid option combinations; each is one step-by-step execution of the "
+                       "create / disconnect during wait) x descriptor events of another service (none / uploaded / failed, while the creation command "
+                       "is outstanding and during the wait) plus the invalid option combinations; each is one step-by-step execution of the "
                        "real listen(); all are distinct and non-trivial")
     ok = pipeline.validate(rep, pid, "OnionListen", "OnionListenTrace", "OnionListenTrace.cfg", traces, chunk=100, nproc=4,
-                           payload=lambda t: dict(cfg=t["cfg"], fault=t["fault"]),
-                           describe=lambda t: "(configuration %s, fault %s)" % (t["cfg"], t["fault"]))
+                           payload=lambda t: dict(cfg=t["cfg"], fault=t["fault"], noise=t["noise"]),
+                           describe=lambda t: "(configuration %s, fault %s, foreign descriptor events %r)" % (t["cfg"], t["fault"], t["noise"]))
     rep.cov["samples"] = [dict(cfg=t["cfg"], fault=t["fault"], steps=t["steps"]) for t in ok[:1]]
     return rep.finish()
 
 
 def replay(pid, path):
     p = json.load(open(path))
-    t = ol.replay(p["cfg"], p["fault"])
+    t = ol.replay(p["cfg"], p["fault"], p.get("noise", ""))
     res, r = tlc.validate_traces("OnionListenTrace", "OnionListenTrace.cfg", [t])
     x = res[0]
     print("replay: matched %d of %d steps" % (x["matched"], x["wanted"]))
